@@ -449,6 +449,36 @@ func safelyF(f func() *stat.Failure) (res *stat.Failure) {
 	return f()
 }
 
+// TestC15ReaderLegacyBig: a legacy stream whose first block is incompressible (stored in more than 8 MiB, which the Reader
+// takes into a buffer of its own) followed by a short block: every source call fails in turn, in every failure kind.
+func TestC15ReaderLegacyBig(t *testing.T) {
+	rec := stat.For("C15")
+	rec.SetRule(c15Rule)
+	if shard != nshards-1 {
+		return
+	}
+	base := c15RCase{Opts: wopts{BS: 7, Legacy: true, Conc: 1}, Data: gen.Data{Segs: []gen.Seg{{K: "rand", N: 8 << 20, S: 41}, {K: "text", N: 1000, S: 42, P: 3}}}}
+	z, data, f := c15Stream(base)
+	if f != nil {
+		t.Fatalf("cannot build the legacy stream: %s", f.Msg)
+	}
+	for _, r := range []rcfg{{Conc: 1, Sizes: []int{65536}}, {Conc: 1, WriteTo: true}, {Conc: 1, Sizes: []int{64 << 20}}, {Conc: 4, Sizes: []int{4095}, Src: []int{1 << 20}}} {
+		probe := &inst.Source{Data: z, Chunks: r.Src}
+		prd := lz4.NewReader(probe)
+		_ = prd.Apply(lz4.ConcurrencyOption(r.Conc))
+		_, _ = io.Copy(io.Discard, struct{ io.Reader }{prd})
+		for k := 1; k <= probe.Calls; k++ {
+			for kind := 0; kind <= 9; kind++ {
+				c := base
+				c.R, c.FailAt, c.FailKind, c.Sticky = r, k, kind, (k+kind)%2 == 0
+				journal("C15", "C15/reader", c)
+				judge(t, "C15", "C15/reader", c, safelyF(func() *stat.Failure { return runC15RWith(c, z, data, rec) }))
+			}
+		}
+		rec.Class("reader/legacy-block-stored-in-more-than-8MiB")
+	}
+}
+
 func TestC15Reader(t *testing.T) {
 	rec := stat.For("C15")
 	rec.SetRule(c15Rule)
